@@ -734,9 +734,11 @@ class P(Prop):
         (M, "TV.C02.operate_source_prime_value", "T11': operate(src e) with the ' shorthand returns the tree semantics of the unprimed tree at every observation and leaves the track exactly as it was"),
         (M, "TV.C02.operate_source_sugar", "T15: ANY number of bare unary minuses (start, after '=', '(' or '{') and of doubled signs after a binary + or - in one string, in any order: operate does on the sugared string what it does on the printed source string it comes from (the replacements of __unaryOp act locally)"),
         (M, "TV.C02.tokens_of_sugared_source", "T15': preprocess + makeRPN on a value-form string with any number of bare minuses / doubled signs = #output, postfix(desugared tree), ="),
+        (M, "TV.C02.operate_source_sugar_statement", "T15'': with a left-hand side, operate on the sugared string does what it does on the postfix tokens lhs, postfix(desugared tree), = (so T3b-T3d, T6' apply)"),
         (MA, "TV.C02.aggregate_sum_avg", "T13: SUM / AVG as coded (NaN skipped) are the sum and sum/count of the non-NaN observations; AVG of no number is ZeroDivisionError (exact arithmetic: FieldModel over an ordered field)"),
         (MA, "TV.C02.aggregate_var_mse", "T13': VAR / MSE as coded are sum((x-mean)^2)/count (population variance, mean = AVG) and sum(x^2)/count over the non-NaN observations; STD / RMSE are math.sqrt of them (exact arithmetic; math.sqrt a parameter)"),
         (MA, "TV.C02.aggregate_median", "T14: MEDIAN as coded (np.argsort order, NaN last and counted in N; ranks N//2 resp. int(N/2-1), int(N/2)) is the value of rank N/2 among the numbers for odd N and the mean of the values of ranks N/2-1, N/2 for even N, whenever rank N/2 falls on a number; 'value of rank k' stated without sorting (at most k numbers below it, more than k below or equal)"),
+        (MA, "TV.C02.aggregate_median_nan", "T14 (NaN side): an odd vector half of whose observations or more are NaN has a NaN MEDIAN (np.argsort puts NaN last, Median does not skip them)"),
         (MA, "TV.C02.median_rank_of_noNaN", "T14 hypothesis: on a non-empty vector without NaN every rank falls on a number"),
         (MA, "TV.C02.order_statistic_unique", "the value of rank k of a list is unique (so T14 / T14' determine MEDIAN / MAD)"),
         (MA, "TV.C02.aggregate_mad", "T14': MAD as coded (NaN skipped, absolute values, central rank N//2 since fix 56ef03e resp. the mean of ranks N/2-1, N/2) is the median of |x| over the non-NaN observations"),
@@ -745,7 +747,7 @@ class P(Prop):
     partial = []
     open_statements = [
         "floating point: the two laws T5 still needs (x+s=s+x, x*s=s*x) are stated as hypotheses (shown for rationals with NaN; they hold of IEEE doubles, but Lean's Float is opaque); the reciprocal laws x*(1/s)=x/s, (1/x)*s=s/x are no longer needed since fix 5676890. T5 says that the evaluator performs the documented operations observation by observation; how far the computed doubles are from the real-number value of the expression (rounding) is decided by the transfer check against the independent Python oracle (IEEE evaluation of the documented definitions with a running error bound, relative tolerance 1e-9 at every magnitude)",
-        "the definitions of the pointwise functions (ABS SQRT LOG DIODE SIGN EXP COS SIN TAN) are taken as coded in both denoteM and denote (they ARE their definitions up to math.sqrt / log / exp / cos / sin / tan, which are parameters of the scalar type); the aggregates and finite differences are proved equal to their documented formulas: MIN / MAX (T8), ARGMIN / ARGMAX (T9, T9'), D I D2 (T10), SUM AVG VAR STD MSE RMSE (T13, T13': sums over the non-NaN observations, population variance, math.sqrt a parameter) and MEDIAN / MAD (T14, T14': the value(s) of the central rank(s), 'value of rank k' stated without sorting) - T13/T14 over an ordered field (exact arithmetic; Option Rat is an instance), so for IEEE doubles they hold up to rounding, which the Python oracle's running error bound judges; MEDIAN with NaN among the observations: np.argsort puts NaN last and N counts them, T14 covers it as long as rank N/2 falls on a number - beyond that the coded result is NaN (sortL_rank does not state it), and the oracle does not judge a MEDIAN of a vector with NaN",
+        "the definitions of the pointwise functions (ABS SQRT LOG DIODE SIGN EXP COS SIN TAN) are taken as coded in both denoteM and denote (they ARE their definitions up to math.sqrt / log / exp / cos / sin / tan, which are parameters of the scalar type); the aggregates and finite differences are proved equal to their documented formulas: MIN / MAX (T8), ARGMIN / ARGMAX (T9, T9'), D I D2 (T10), SUM AVG VAR STD MSE RMSE (T13, T13': sums over the non-NaN observations, population variance, math.sqrt a parameter) and MEDIAN / MAD (T14, T14': the value(s) of the central rank(s), 'value of rank k' stated without sorting) - T13/T14 over an ordered field (exact arithmetic; Option Rat is an instance), so for IEEE doubles they hold up to rounding, which the Python oracle's running error bound judges; MEDIAN with NaN among the observations: np.argsort puts NaN last and N counts them, T14 covers it as long as rank N/2 falls on a number - beyond that the coded result is a NaN for odd N (aggregate_median_nan) and 0.5 * (x + NaN) for even N (not stated: it needs NaN propagation of +), and the oracle does not judge a MEDIAN of a vector with NaN",
         "source strings (T7): any number of bare unary minuses and doubled signs in one string is proved since T15 (closure Sugar of the two sugarings over a printed source string); still outside the proved grammar: three or more consecutive signs ('a---b'), a sign directly after * / ^ < > ('a*-b': Python raises), a doubled sign directly after '=' , '(' or '{' ('c=--a'), names ending with '.' ('2.*a' holds the pattern '.*'), the combination of T15 with the reflexive forms ('a+=-b') and with '**' (each is proved separately) - all covered by the correspondence streams expr/str; the ' shorthand is proved since T11, for names that do not start with a quote; error propagation (T6) excludes unbound names, unknown function names and a function applied to a bare number token, where the machine raises another error than the tree semantics (counter-examples in Lemmas/ExprErr.lean)",
     ]
     modelled = ("Track.__evaluate (replace chain, __specialOpChar, __convertReflexOperator, __unaryOp, f( -> f@( loops, #output prefix), "
